@@ -19,6 +19,14 @@ REFINED = ["entry guards mirrored from the code and proved equivalent to the doc
            "IBig::sqrt, UBig/IBig::ilog, in_radix, ConstDivisor::new, is_multiple_of_const, float assert_finite_operands / "
            "assert_limited_precision as used by add/sub/div/sqrt/ulp, float div_euclid/rem_euclid, powf, split_at_point, "
            "ln and ln_1p (domain guard of fix b0e87a3), RBig/Relaxed::from_parts, nearest/next_up/next_down(limit = 0)",
+           "round 2 (GuardsMore): float to_int/trunc/fract/ceil/floor/round, rem, inv, to_binary, from_repr; rational "
+           "from_parts_signed, inv, / % div_euclid, / integer; ConstDivisor::from_word/from_dword and its uses, Reduced ops of two "
+           "rings (DifferentRings), to_chunks, UBig::in_radix — full equivalences; partial (hypothesis excludes a recorded finding, "
+           "counterexample theorem shows it is needed): float mul/sqr/cubic/powi/shl/shr (unchecked exponent), exp/exp_m1 "
+           "(|x| <= 2^61), to_decimal (binary precision 1..3)",
+           "allocation requests of ones / set_bit / << (64-bit words): the request exceeds the result by <= 2 words, so "
+           "Buffer::allocate/reallocate's MAX_CAPACITY test fires iff the documentation says AllocTooMuch, outside a band of two "
+           "word counts (band counterexample proved)",
            "RBig::farey_neighbors loop (fuel model): terminates within `limit` iterations; needs exactly `limit` for x = 1/(limit+1)",
            "float ln series loop (fuel model over Rat): terminates for 0 <= z <= 1/3 (x > 0 after scaling, the only input that "
            "reaches it since the ln guard); as-is counterexample for the pre-fix code: never terminates for z >= 2 (x < 0)",
@@ -46,7 +54,7 @@ RULE = ("One case = one public API call at a domain edge; both sides print only 
         "distinct (op,args) lines.")
 EXPLANATION = ("The model of this property is the documentation: Spec/Panics.lean transcribes the rustdoc `# Panics` sections, the "
                "trait/type level docs and the central panic helpers into a decidable `verdict : Op -> Args -> returns | panics k | "
-               "unspecified` (146 operations). Proved: every kind it returns is a documented one; for 45 operations the entry guards "
+               "unspecified` (146 operations). Proved: every kind it returns is a documented one; for 80 operations the entry guards "
                "mirrored from the code fail with kind k iff the documentation names k; the Farey walk terminates within `limit` steps and "
                "needs `limit` steps on 1/(limit+1) (the linear-time finding, made precise); ln/ln_1p now guard their domain (proved "
                "equivalent to the documentation) so the series loop is entered only where it provably terminates; for the pre-fix "
@@ -56,7 +64,7 @@ ASSUMPTIONS = ["Spec/Panics.lean is a faithful transcription of the rustdoc (it 
                "the harness address-space cap (4 GiB) turns allocation failure into the documented `out of memory` panic",
                "per-case wall limit 4 s distinguishes termination from non-termination for the generated sizes"]
 LEVEL_TEXT = ("PARTIAL. Lean 4 theorems: the transcription of the documentation is total and only names documented kinds; the entry "
-              "guards of 45 representative operations (mirrored from the code) are equivalent to it; two loops whose termination is the "
+              "guards of 80 operations (mirrored from the code) are equivalent to it; two loops whose termination is the "
               "question are modelled with fuel and their (non-)termination is proved. The rest of the public API (146 ops in total) is "
               "decided by correspondence only: each call runs in a supervised worker (panic capture, 4 s wall limit, address-space cap) in "
               "the debug build and, in the thorough tier, the release build, and its outcome class is compared with the transcription.")
@@ -70,7 +78,7 @@ THEOREMS = ["Dashu.Props.C16." + t for t in (
     "ibig_sqrt_guard ubig_ilog_guard ibig_ilog_guard in_radix_guard const_divisor_new_guard rbig_from_parts_guard "
     "rbig_limit_guard fbig_add_sub_guard fbig_div_guard fbig_sqrt_guard fbig_ulp_guard ubig_is_multiple_of_const_guard "
     "ibig_is_multiple_of_const_guard fbig_split_at_point_guard fbig_euclid_guard fbig_powf_guard fbig_ln_guard "
-    "fbig_ln_1p_guard farey_terminates "
+    "fbig_ln_1p_guard fbig_finite_only_guard fbig_mul_guard_partial fbig_mul_guard_counterexample fbig_sqr_guard_partial fbig_cubic_guard_partial fbig_rem_guard fbig_inv_guard fbig_exp_guard_partial fbig_powi_guard_partial fbig_shl_guard_partial fbig_shr_guard_partial fbig_shl_guard_counterexample fbig_to_binary_guard fbig_to_decimal_guard_partial fbig_to_decimal_guard_counterexample fbig_from_repr_guard rbig_from_parts_signed_guard rbig_inv_guard rbig_div_family_guard rbig_div_int_guard const_divisor_from_word_guard const_divisor_from_dword_guard const_divisor_use_guard reduced_different_rings_guard to_chunks_guard ubig_in_radix_guard ones_alloc_guard set_bit_alloc_guard shl_alloc_guard_partial shl_alloc_band_counterexample farey_terminates "
     "farey_needs_limit_steps ln_positive_terminates ln_negative_never_terminates ascii_cuts_safe "
     "float_parser_cuts_safe").split()]
 
